@@ -49,6 +49,14 @@ THEOREMS = [
     "Typedpy.C09.counterexample_description_nul",
     "Typedpy.C09.always_compiles_statement_false",
     "Typedpy.C09.accepted_example",
+    "Typedpy.C09.exported_schema_is_source",
+    "Typedpy.C09.admitted_is_accepted_partial",
+    "Typedpy.C09.counterexample_bool_as_number",
+    "Typedpy.C09.counterexample_bool_string",
+    "Typedpy.C09.counterexample_short_positional_array",
+    "Typedpy.C09.counterexample_null_optional",
+    "Typedpy.C09.exactness_statement_false",
+    "Typedpy.C09.admitted_is_accepted_example",
     "Typedpy.C09.emitted_module_clean",
     "Typedpy.C09.definitions_defined_before_use",
     "Typedpy.C09.counterexample_dict_order_forward_ref",
